@@ -176,7 +176,8 @@ def run(ctx):
     n_cfg = 3 if thorough else 1              # configurations per (cube type, k)
     seeds_op = 3 if thorough else 1           # bytecode-granularity schedules per pooled fault set
     seeds_task = 4 if thorough else 2         # task-granularity schedules per pooled fault set
-    ctx.rule = ("for both cube types and k = 1..8 sub-cubes (random cubes with extra axes, random aggregates singly or 2-4 together): "
+    ctx.rule = ("'scale' cubes (30..40 rows x 9..16 sub-cubes, both types; every call is the first evaluation of a fresh cube object) and, "
+                "for both cube types and k = 1..8 sub-cubes (random cubes with extra axes, random aggregates singly or 2-4 together): "
                 "serial mode - no raise and a raise at EVERY single invocation index (as invocation number and as sub-cube number), "
                 "Exception and non-Exception interrupts; pooled mode under the deterministic scheduler - EVERY subset of invocation "
                 "numbers and EVERY subset of sub-cubes for k <= 6 (random subsets for k = 7, 8) x seeded schedules (bytecode and task "
@@ -194,7 +195,7 @@ def run(ctx):
     ctx.coverage["print_assumptions"] = pr["assumptions"]
 
     lits, meta, hits = [], [], []
-    stats = {"serial_calls": 0, "pooled_det_calls": 0, "pooled_real_calls": 0, "k1_det_calls": 0, "reuse_calls": 0,
+    stats = {"scale_configurations": 0, "serial_calls": 0, "pooled_det_calls": 0, "pooled_real_calls": 0, "k1_det_calls": 0, "reuse_calls": 0,
              "pooled_skipped_subcubes_seen": 0, "pooled_multiple_raised_seen": 0}
     dist = {"k": {}, "kind": {}, "pool_sizes": {}, "granularity": {}}
     points = [0]
@@ -259,7 +260,11 @@ def run(ctx):
         else:
             r2 = again.run(mode, **dict(kw, seed=seed + 1) if kw else {})
         ok_reuse = r2["sig"] == fresh and r2["obs"] is None and not r2["hang"] and r2["foreign"] is None
-        if not ok_reuse:
+        js2 = sorted(j for _, j in again.log)
+        if ok_reuse and js2 != list(range(k)):
+            ok_reuse = False
+            bad.append(("interrupt:consulted-not-once-per-subcube", "the follow-up call on the same objects consulted sub-cubes %s (k = %d)" % (js2, k), True))
+        elif not ok_reuse:
             bad.append(("interrupt:reuse-differs", "after the call (outcome %s) an uninterrupted calculate on the same cube and aggregate "
                         "objects %s" % (r["obs"], "raised " + str(r2["foreign"] or r2["obs"]) if r2["sig"] is None else "differs from a fresh evaluation"), True))
         for sig, what, found in bad:
@@ -287,11 +292,30 @@ def run(ctx):
     rejected = 0
     t0 = time.time()
     cfgi = 0
-    for k in range(1, KMAX + 1):
-        for kind in ("ccube", "xcube"):
-            made = 0
-            while made < n_cfg:
-                cfg = cl.gen_cfg(rng, kind, k, aggs=rng.choice(["one", "one", "some"]), max_cells=400)
+    # the plan: n_cfg small configurations per (k = 1..8, cube type), then the 'scale' configurations: 30..40 rows x
+    # 9..16 sub-cubes (rows x sub-cubes >= 256, i.e. beyond any small-size threshold the code may switch behaviour at)
+    todo = [(k, kind, None) for k in range(1, KMAX + 1) for kind in ("ccube", "xcube") for _ in range(n_cfg)]
+    scale_layouts = [[(3,), (3,)], [(4,), (4,)], [(12,)], [(2,), (2, 3)], [(16,)], [(2, 5), ()], [(3, 3)]]
+    for kind in ("ccube", "xcube"):
+        if thorough:
+            chosen = scale_layouts
+        elif kind == "ccube":
+            chosen = [scale_layouts[0], scale_layouts[1], rng.choice(scale_layouts[2:])]
+        else:
+            chosen = [scale_layouts[0], rng.choice(scale_layouts[1:])]
+        todo += [(cl.nsub_of({"shapes": lay}), kind, lay) for lay in chosen]
+    first_of = set()
+    ti = 0
+    tries = 0
+    while ti < len(todo) and tries < len(todo) * 5:
+        tries += 1
+        k, kind, scale = todo[ti]
+        if True:
+            if True:
+                if scale is None:
+                    cfg = cl.gen_cfg(rng, kind, k, aggs=rng.choice(["one", "one", "some"]), max_cells=400)
+                else:
+                    cfg = cl.gen_cfg(rng, kind, k, aggs=rng.choice(["one", "some"]), max_cells=1000, shapes=scale, rows=(30, 40))
                 cube, funcs = rig.cube(cfg), rig.funcs(cfg)
                 coords = rig.product_coords(cube, cfg)
                 try:
@@ -302,18 +326,23 @@ def run(ctx):
                 except Exception:
                     rejected += 1
                     continue
+                ti += 1
+                made = 1 if (k, kind) not in first_of else 2
+                first_of.add((k, kind))
                 fresh = r["sig"]
                 # per sub-cube contributions to the diagnostic fields, from the clean serial run
                 snaps = clean.diag_at + [r["d1"]]
                 if len(snaps) != k + 1:
                     hits.append(("interrupt:consulted-not-once-per-subcube", "a clean serial run consulted the callback %d times for %d sub-cubes"
                                  % (len(clean.log), k), {"cfg": cfg, "mode": "serial", "observed_log": clean.log}, True))
-                    made += 1
                     continue
                 costs = [snaps[j + 1][0] - snaps[j][0] for j in range(k)]
                 nf = [(snaps[j + 1][2] - snaps[j][2]) for j in range(k)]
-                made += 1
                 cfgs.append(cfg)
+                if scale is not None:
+                    stats["scale_configurations"] += 1
+                    if stats["scale_configurations"] == 1:
+                        ctx.samples.append({"scale_cfg": {k_: cfg[k_] for k_ in ("kind", "N", "shapes", "ishape", "aggs")}, "subcubes": k})
                 dist["k"][k] = dist["k"].get(k, 0) + 1
                 dist["kind"][kind] = dist["kind"].get(kind, 0) + 1
                 if len(ctx.samples) < 3 and k >= 3:
@@ -332,12 +361,12 @@ def run(ctx):
                     fault_sets = [("N", s) for s in subsets(k)] + [("T", s) for s in subsets(k) if s]
                 else:
                     fault_sets = [("N", []), ("N", list(range(k))), ("T", list(range(k)))]
-                    for _ in range(24 if thorough else 10):
+                    for _ in range((24 if thorough else 10) if scale is None else 4):
                         fault_sets.append((rng.choice("NT"), sorted(rng.sample(range(k), rng.randint(1, k - 1)))))
                 for which, s in fault_sets:
                     T, N = (s, []) if which == "T" else ([], s)
                     for si in range(seeds_op + seeds_task):
-                        gran = "opcode" if si < seeds_op else "task"
+                        gran = "opcode" if (si < seeds_op and scale is None) else "task"
                         ps = [1, 2, 3, 1, 4, 2, 1, 8, 1, 16, 2][(si + len(s) + cfgi) % 11]
                         dist["pool_sizes"][ps] = dist["pool_sizes"].get(ps, 0) + 1
                         dist["granularity"][gran] = dist["granularity"].get(gran, 0) + 1
@@ -367,7 +396,9 @@ def run(ctx):
     ctx.coverage.update({
         "distribution": {k_: {str(a): b for a, b in sorted(v.items())} for k_, v in dist.items()},
         "configurations": len(cfgs), "rejected_inputs": rejected, "calls": stats,
-        "fault_enumeration": {"serial": "no raise + every single invocation index i < k (by invocation number and by sub-cube), k = 1..8",
+        "scale": "cubes with 30..40 rows x 9..16 sub-cubes (rows x sub-cubes >= 256), both cube types: the interrupted call is the FIRST evaluation of a "
+                 "fresh cube object, every single index, then the follow-up on the same objects (result + consultations once per sub-cube)",
+        "fault_enumeration": {"serial": "no raise + every single invocation index i < k (by invocation number and by sub-cube), k = 1..8 and the scale cubes (k = 9..16)",
                               "pooled": "every subset of invocation numbers and every non-empty subset of sub-cubes for k = 1..6 "
                                         "(2^k + 2^k - 1 fault sets each); none/all + random subsets for k = 7, 8",
                               "schedules_per_fault_set": {"opcode": seeds_op, "task": seeds_task}},
